@@ -178,12 +178,28 @@ def run(tier: str) -> int:
             if not ok:
                 continue
             noisy = df.assign(verif_noise_a=np.arange(len(df)) * 1.5, zzz_unused_hh=7, noise_m=1.0)
+            # unused columns with adversarial names: the base names of gettsim's own group aggregates (`anz_personen` for
+            # `anz_personen_hh`), which are neither functions nor inputs -- such a column is reported as unused and must not
+            # redefine the aggregate
+            import extract
+            from _gettsim.shared import remove_group_suffix
+            _, functions_now = popgen.env(date)
+            bases = sorted({remove_group_suffix(k) for k in extract.aggregation_dicts("aggregate_by_group")}
+                           - set(functions_now) - set(df.columns))
+            pick = rnd.sample(bases, min(4, len(bases)))
+            noisy_bases = df.assign(**{b: 4 for b in pick})
             shuffled = df.copy()
             shuffled.index = rnd.sample(range(1000, 1000 + len(df)), len(df))      # labels not in row order
             gaps = df.copy()
             gaps.index = sorted(rnd.sample(range(0, 3 * len(df) + 3), len(df)))   # a filtered frame's index
+            agg_of_pick = [k for k in extract.aggregation_dicts("aggregate_by_group") if remove_group_suffix(k) in pick and k in nodes]
+            T = list(dict.fromkeys(T + agg_of_pick[:6] + ["arbeitsl_geld_2_m_bg"]))
+            ok, base = r.attempt("base run", popgen.simulate, df, date, targets=T)
+            if not ok:
+                continue
             variants = [("extra unused columns", dict(df=noisy)), ("debug=True", dict(df=df, debug=True)),
                         ("check_minimal_specification=warn", dict(df=noisy, check_minimal_specification="warn")),
+                        (f"extra unused columns named like the base of built-in aggregates {pick}", dict(df=noisy_bases)),
                         ("debug=True, index labels not in row order", dict(df=shuffled, debug=True)),
                         ("debug=True, index with gaps", dict(df=gaps, debug=True)),
                         ("index labels not in row order", dict(df=shuffled)),
